@@ -64,7 +64,17 @@ func sameSlot(t, c ref.DT, sect int) bool {
 }
 
 // firstJieOfBase: Xiaohan instant of the base year (the first Jie term of that civil year).
-func firstJie(base int) ref.DT { return gen.Terms(base)[2] }
+// In the Julian era Xiaohan falls in late December of the previous civil year, so the first Jie dated in the base
+// year is then Lichun: the statement's lower bound is the first Jie term *of* (dated in) the base year.
+func firstJie(base int) ref.DT {
+	ts := gen.Terms(base)
+	for i := 0; i < len(ts); i += 2 {
+		if ts[i].Y == base {
+			return ts[i]
+		}
+	}
+	return ts[2]
+}
 
 func jieNear(t ref.DT) (inSlot bool, beforeInSlot bool) {
 	ts := gen.Terms(t.Y)
@@ -82,7 +92,7 @@ func jieNear(t ref.DT) (inSlot bool, beforeInSlot bool) {
 
 var reverse = ev.Register(&ev.P[bzCase]{
 	Name: "reverse_lookup_roundtrip",
-	Rule: "moments from Xiaohan of the base year to the end of the current year (every Jie 1900..current year x offsets in minutes {-125,-61,-59,-31,-1,0,+1,+31,+61,+119} swept; Lichun day, both sides of midnight, uniform moments generated), sect in {1,2}, base year in {1900 default, 1600, 1984, 2000}; oracle: forward pillars of the moment -> ListSolarFromBaZiBySectAndBaseYear must contain a moment in the same two-hour slot (completeness), every returned moment converted forward has exactly the requested pillars under the requested sect and year >= base (soundness), the list is strictly increasing by R-civil instant, and the default-argument wrappers equal their explicit forms; non-trivial: the slot contains a Jie instant, is the rat slot, or the day is a Jie day",
+	Rule: "moments from Xiaohan of the base year to the end of the current year (every Jie 1900..current year x offsets in minutes {-125,-61,-59,-31,-1,0,+1,+31,+61,+119} swept; Lichun day, both sides of midnight, uniform moments generated), sect in {1,2}, base year in {1900 default, 1600, 1984, 2000, and 1582, 1500, 1000 — whose Jie terms lie on the Julian side of the calendar switch}; oracle: forward pillars of the moment -> ListSolarFromBaZiBySectAndBaseYear must contain a moment in the same two-hour slot (completeness), every returned moment converted forward has exactly the requested pillars under the requested sect and year >= base (soundness), the list is strictly increasing by R-civil instant, and the default-argument wrappers equal their explicit forms; non-trivial: the slot contains a Jie instant, is the rat slot, or the day is a Jie day",
 	Check: func(c bzCase) error {
 		t := c.T
 		p := pillars(t, c.Sect)
@@ -174,7 +184,7 @@ var reverse = ev.Register(&ev.P[bzCase]{
 	Known: func(c bzCase, err error) string {
 		return knownSig(c)
 	},
-	Require: []string{"jieInSlot", "beforeJieInSlot", "ratSlot", "hour23", "jieDay", "lichunDay", "sect:1", "sect:2", "base:1600", "base:1984"},
+	Require: []string{"jieInSlot", "beforeJieInSlot", "ratSlot", "hour23", "jieDay", "lichunDay", "sect:1", "sect:2", "base:1600", "base:1984", "base:1500", "base:1000", "base:1582"},
 })
 
 // knownSig: input classes of the open findings (depend on the input only).
@@ -214,7 +224,7 @@ func TestC10(t *testing.T) {
 		}
 		reverse.Eval(bzCase{ref.DT{Y: lastYear, M: 12, D: 31, H: 23, Mi: 59, S: 59}, 2, 2000})
 	}
-	bases := []int{1900, 1600, 1984, 2000}
+	bases := []int{1900, 1600, 1984, 2000, 1500, 1000, 1582, 1900, 1900}
 	offs := []int64{-125, -61, -59, -31, -1, 0, 1, 31, 61, 119}
 	step := 1
 	if !ev.Thorough() {
